@@ -46,6 +46,11 @@ CHECKS.update({
                 text="AGPPair.tla: a solver driven by an arbitrary mixture of DoGlobalIteration(k) and Solve calls and a reference making single iterations share one nondeterministically chosen objective; in every reachable state the driven solver's trials are the reference's trials of the same index, its state at equal trial counts is the reference's state, a completed Solve has made exactly max(trials before the call, first index at which the stop criterion held) trials, that index is a function of the history alone, and Solve on a finished solver makes no trial. All compositions of up to 7 (quick: 5) iterations into batches followed by 0/1/2 Solve calls are enumerated by TLC from the specification's user actions and replayed on fresh real solvers for several objectives, dimensions and (eps, itersLimit) combinations; long random compositions, late-window patterns (batch ending j trials before the end, results read, then Solve), repeated runs in one process and in fresh interpreters with other hash seeds. Every run is validated by AGPTrace.tla and compared bit for bit with the reference by SeqCompare.tla." + SOLVER_NOTE),
 })
 
+CHECKS.update({
+    "C12": dict(level="model_checking", design="4/C12", technique="TLC exhaustive exploration of several solvers with an explicit heap of shared-able objects and a call stack for nested calls (AGPMulti.tla, negative control for the pinned defaults) + TLC-enumerated schedules replayed on real solvers + TLC trace validation per solver and pairwise comparison with solo runs",
+                text="AGPMulti.tla: S solver records plus an explicit heap for the objects whose sharing can couple instances (Solution.bestTrials lists, value holders), a call stack so that other solvers act exactly where user code runs (between public calls and inside an objective evaluation); with fresh objects per instance every step of one solver leaves every observable of every other solver unchanged (action property Isolated), each solver's own view stays coherent and heap objects are disjoint; with shared default objects (the tree as pinned) TLC refutes Isolated - the negative control. Every schedule TLC enumerates from AGPMultiSched.tla (all interleavings of two solvers' step sequences up to 4+4, schedules with Solve, calls nested in another solver's objective) is replayed on real solvers (created upfront or lazily, separate or shared problem objects; plus three-solver random schedules with batches); after every step of any solver all others are observed; AGPTrace.tla validates each solver against the state the specification holds for it, SeqCompare.tla requires trials and result equal to the solo run and pairwise distinct list/holder objects." + SOLVER_NOTE),
+})
+
 NOT_YET = {
 }
 
